@@ -21,10 +21,11 @@ for b, fns in (("cfb_e", ["beltCFBStart", "beltCFBStepE"]), ("cfb_d", ["beltCFBS
                ("mac", ["beltMACStart", "beltMACStepA", "beltMACStepG"])):
     for lx in QX:
         for ly in QY:
-            GROUPS.append(chunk(b, lx, ly, fns, tier="quick" if (lx in (1, 16, 17) and ly in (1, 17)) else "thorough"))
+            GROUPS.append(chunk(b, lx, ly, fns, tier="quick" if (lx, ly) in ((1, 17), (16, 1), (17, 17)) else "thorough"))
     # three fragments: a short second fragment served from the buffered gamma / partial block, then a block boundary
     for lx, ly, lz in ((5, 3, 20), (17, 1, 16), (1, 15, 17), (10, 2, 4)):
-        GROUPS.append(chunk(b, lx, ly, fns, lz=lz, tier="thorough" if b == "mac" else "quick", required=(b != "mac")))
+        q3 = (b in ("cfb_e", "cfb_d", "ctr") and (lx, ly, lz) == (5, 3, 20)) or (b == "cfb_d" and (lx, ly, lz) == (17, 1, 16))
+        GROUPS.append(chunk(b, lx, ly, fns, lz=lz, tier="quick" if q3 else "thorough", required=q3))
         GROUPS.append(G("belt.%s.x%d.y%d.z%d.search" % (b, lx, ly, lz), "harness/C10/belt_chunks.c", "h_" + b, BELT,
                         defs=["LX=%d" % lx, "LY=%d" % ly, "LZ=%d" % lz], level="N", backend="native", search=20000, fn=fns,
                         note="native run of the three-fragment harness; NOT proof"))
